@@ -481,6 +481,14 @@ def unmodelled_mutable_uses(fn, rs, root, after=None, modelled=()):
                 continue
             if pt_ is not None and is_nonconst_ref(pt_) and rs.path(a).startswith(root):
                 hit = True
+            # a closure handed to the callee (callback): the callee may run it, and it may modify what its body touches
+            la = a
+            while la is not None and la.get("k") in ("Construct", "TempObj", "Cast") and (la.get("e") is not None or len(la.get("a", [])) == 1):
+                la = la.get("e") if la.get("e") is not None else la["a"][0]
+            if la is not None and la.get("k") == "Ref" and la.get("dk") == "local" and rs.var(la.get("d")) is not None and (rs.var(la["d"]).get("init") or {}).get("k") == "Lambda":
+                la = rs.var(la["d"])["init"]
+            if la is not None and la.get("k") == "Lambda" and la.get("body") is not None and any(p_.startswith(root) for p_ in lambda_touched_paths(rs, fn, la["body"])):
+                hit = True
         if recv is not None and not n.get("cconst") and n.get("k") in ("MCall", "OpCall") and rs.path(recv).startswith(root):
             pr = par.get(id(n))
             if pr is not None and pr[0].get("k") in ("Block", "If", "For", "While", "Do", "ForRange"):
